@@ -92,7 +92,13 @@ def crash_key(sig):
     k = KNOWN_FRAMES.get((sig["type"], sig["inner"]))
     if k:
         return k
-    return f"crash:{sig['type']}:{sig['myst'] or sig['inner']}"
+    if sig["type"] == "RecursionError":
+        # the innermost frame of a RecursionError is arbitrary: key by the innermost myst_parser frame
+        return f"crash:RecursionError:{sig['myst'] or sig['inner']}"
+    if sig["inner"] != sig["myst"]:
+        # raised inside a dependency: key by the raising frame, and say through which myst_parser function it was reached
+        return f"crash:{sig['type']}:{sig['inner']}:via:{sig['myst']}"
+    return f"crash:{sig['type']}:{sig['myst']}"
 
 
 def run_docutils(ctx, case, text, kw, src=None):
